@@ -328,6 +328,32 @@ static void tgold_group(Group & g, verif::Rng & rng, int ncases)
       }
     }
   }
+  // fine requests: uncertainties of 1e-6 .. 3e-8 of the interval (about 30-36 bisections by the golden ratio: an inaccurate section ratio lets
+  // the carried-over interior point drift until the two interior points cross).  Only functions of (x - x0) without an additive offset,
+  // whose values still resolve the extremum at that distance in double precision.
+  for (int i = 0; i < ncases * 4; i++) {
+    UPar p;
+    static const int kinds[] = {0, 2, 4};
+    p.kind = kinds[i % 3];
+    double a = -3 + 6 * rng.uniform();
+    double c = a + 0.5 + 4 * rng.uniform();
+    p.x0 = a + (c - a) * (0.02 + 0.96 * rng.uniform());
+    p.s = 1;
+    for (int minmax = 1; minmax <= 2; minmax++) {
+      p.sign = (minmax == 1) ? 1.0 : -1.0;
+      for (double rel : {1e-6, 3e-7, 1e-7, 3e-8}) {
+        double eps = rel * (c - a), xe, fe;
+        decay0_tgold(a, 0.5 * (a + c), c, unimodal, eps, minmax, xe, fe, &p);
+        double err = std::fabs(xe - p.x0);
+        g.n++;
+        g.distinct.insert(fmt("fine/k%d/mm%d/rel%g", p.kind, minmax, rel));
+        if (err / eps > g.maxerr) g.maxerr = err / eps;
+        if (!(err <= eps))
+          g.fail(fmt("tgold|fine|kind%d|minmax%d", p.kind, minmax),
+                 fmt("kind %d x0=%.17g on [%.17g,%.17g] eps=%.3g (%g of the interval) minmax=%d: xextr=%.17g, %.3g eps away", p.kind, p.x0, a, c, eps, rel, minmax, xe, err / eps));
+      }
+    }
+  }
   // boundary extremum: monotone function, extremum at an end; result must be within eps of it
   for (int i = 0; i < ncases / 4 + 1; i++) {
     UPar p{0, 0, 1, 1};
